@@ -203,23 +203,12 @@ class Yields:
         if self.tool is None:
             raise RuntimeError("no free sys.monitoring tool id")
         self.mon.register_callback(self.tool, self.mon.events.LINE, self._on_line)
-        if self.c_returns:
-            # CPython runs pending signal handlers when a C call returns (and at loop back-edges
-            # and function entry): "just after the last C call of a function" is a crash point that
-            # no statement start stands for
-            self.mon.register_callback(self.tool, self.mon.events.CALL, self._on_call)
-            self.mon.register_callback(self.tool, self.mon.events.C_RETURN, self._on_c_return)
-            self.mon.set_events(self.tool, self.mon.events.LINE | self.mon.events.CALL)
-        else:
-            self.mon.set_events(self.tool, self.mon.events.LINE)
+        self.mon.set_events(self.tool, self.mon.events.LINE)
 
     def uninstall(self):
         if self.tool is not None:
             self.mon.set_events(self.tool, 0)
             self.mon.register_callback(self.tool, self.mon.events.LINE, None)
-            if self.c_returns:
-                self.mon.register_callback(self.tool, self.mon.events.CALL, None)
-                self.mon.register_callback(self.tool, self.mon.events.C_RETURN, None)
             self.mon.free_tool_id(self.tool)
             self.tool = None
 
